@@ -8,6 +8,7 @@ import (
 	"errors"
 	"fmt"
 	"os"
+	"strings"
 	"sync/atomic"
 	"time"
 
@@ -318,7 +319,53 @@ type scenario struct {
 	Code    uint32 `json:"close_code"`
 }
 
-func (c07) Run(t *tape.Tape, cfg sim.Config) (res sim.Result) {
+func (c07) Run(t *tape.Tape, cfg sim.Config) (res sim.Result) { return runScenario(t, cfg, false) }
+
+// RunListened runs a C07 scenario of class yielding with a bracket-checking FunctionListenerFactory on every
+// function (guest, host, both modules): used by C20's class termination -- frames unwound because the
+// module was closed under a running call must each get their Abort.
+func RunListened(t *tape.Tape, cfg sim.Config) sim.Result {
+	cfg.Class = "yielding"
+	return runScenario(t, cfg, true)
+}
+
+// bracket is the listener of RunListened: a stack of open calls.
+type bracket struct {
+	open   []string
+	events int
+	fault  string
+}
+
+func (b *bracket) NewFunctionListener(api.FunctionDefinition) experimental.FunctionListener { return b }
+func (b *bracket) Before(_ context.Context, _ api.Module, def api.FunctionDefinition, _ []uint64, _ experimental.StackIterator) {
+	b.open = append(b.open, def.DebugName())
+	b.events++
+}
+func (b *bracket) end(kind string, def api.FunctionDefinition) {
+	b.events++
+	if n := len(b.open); n == 0 || b.open[n-1] != def.DebugName() {
+		if b.fault == "" {
+			b.fault = fmt.Sprintf("%s %s while the open calls are %v", kind, def.DebugName(), tail(b.open, 6))
+		}
+		return
+	}
+	b.open = b.open[:len(b.open)-1]
+}
+func (b *bracket) After(_ context.Context, _ api.Module, def api.FunctionDefinition, _ []uint64) {
+	b.end("after", def)
+}
+func (b *bracket) Abort(_ context.Context, _ api.Module, def api.FunctionDefinition, _ error) {
+	b.end("abort", def)
+}
+
+func tail(xs []string, n int) []string {
+	if len(xs) > n {
+		return xs[len(xs)-n:]
+	}
+	return xs
+}
+
+func runScenario(t *tape.Tape, cfg sim.Config, listen bool) (res sim.Result) {
 	if cfg.Class == "synctest-deadline" {
 		if runSynctest == nil {
 			panic("harness: class synctest-deadline needs the worker built with go1.26.8 (testing/synctest)")
@@ -326,6 +373,12 @@ func (c07) Run(t *tape.Tape, cfg sim.Config) (res sim.Result) {
 		return runSynctest(t, cfg)
 	}
 	shape := t.Choose(numShapes)
+	if listen {
+		// tail calls replace frames: their listener events are implementation-defined (C20 excludes them)
+		for strings.Contains(shapeNames[shape], "return_call") {
+			shape = (shape + 1) % numShapes
+		}
+	}
 	yield := cfg.Class == "yielding"
 	pad := tape.Pick(t, []int{0, 1, 7, 40})
 	cause := t.Choose(numCauses)
@@ -364,6 +417,13 @@ func (c07) Run(t *tape.Tape, cfg sim.Config) (res sim.Result) {
 	rc = rc.WithCloseOnContextDone(true).WithCoreFeatures(api.CoreFeaturesV2 | experimental.CoreFeaturesTailCall)
 	rt := wazero.NewRuntimeWithConfig(bg, rc)
 	defer rt.Close(bg)
+	// cctx: the context of compilations (with the listener factory, if any)
+	cctx := bg
+	var br *bracket
+	if listen {
+		br = &bracket{}
+		cctx = experimental.WithFunctionListenerFactory(bg, br)
+	}
 
 	var mod api.Module
 	var calls, afterClosed int64
@@ -439,12 +499,12 @@ func (c07) Run(t *tape.Tape, cfg sim.Config) (res sim.Result) {
 		}
 	}
 	_, err := rt.NewHostModuleBuilder("env").NewFunctionBuilder().
-		WithGoModuleFunction(api.GoModuleFunc(hostFn), []api.ValueType{api.ValueTypeI32}, nil).Export("h").Instantiate(bg)
+		WithGoModuleFunction(api.GoModuleFunc(hostFn), []api.ValueType{api.ValueTypeI32}, nil).Export("h").Instantiate(cctx)
 	if err != nil {
 		panic(err)
 	}
 	if binB != nil {
-		cmB, err := rt.CompileModule(bg, binB)
+		cmB, err := rt.CompileModule(cctx, binB)
 		if err != nil {
 			panic(err)
 		}
@@ -452,7 +512,7 @@ func (c07) Run(t *tape.Tape, cfg sim.Config) (res sim.Result) {
 			panic(err)
 		}
 	}
-	mod, err = rt.Instantiate(bg, bin)
+	mod, err = rt.Instantiate(cctx, bin)
 	if err != nil {
 		panic(fmt.Sprintf("harness: guest does not instantiate: %v", err))
 	}
@@ -531,6 +591,17 @@ func (c07) Run(t *tape.Tape, cfg sim.Config) (res sim.Result) {
 			return
 		}
 		res.Stat("probe.callbacks_after_closed", ac)
+	}
+	if br != nil {
+		res.Stat("probe.listener_events", int64(br.events))
+		if br.fault != "" {
+			res.Fail("listener-nesting", "%+v: %s", sc, br.fault)
+			return
+		}
+		if len(br.open) != 0 {
+			res.Fail("listener-unbalanced", "%+v: the call returned %v and %d before-events never got an after- or abort-event (innermost %v)", sc, callErr, len(br.open), tail(br.open, 4))
+			return
+		}
 	}
 	res.Logf("returned %v after %d callbacks (%d after close)", callErr, calls, afterClosed)
 	// the log must be deterministic: replace the counts (timing dependent for deadlines and pure spins)
